@@ -164,7 +164,7 @@ impl C20 {
         }
         out.nontrivial = inside > 0;
         out.fp = u;
-        out.extra_fps = (0..inside.min(200_000)).map(|i| (u << 32) | i).collect();
+        out.extra_distinct = inside.saturating_sub(1);
         out
     }
 
